@@ -1355,4 +1355,381 @@ theorem fileCopy_forward (cbuf : Nat) (F : Bytes) (off siz noff : Nat) (h1 : off
   rw [h3, h4, h5]
   simp
 
+/-! ## the window list stays sorted and disjoint; file pieces avoid mapped windows -/
+
+/-- window list as `_exfile_add_mmap_lw` keeps it: ascending, address ranges (`maxlen`) disjoint, no empty
+    window, every window mapped as far as the file reaches -/
+def WInv (slots : List Slot) (fsize : Nat) : Prop :=
+  slots.Pairwise (fun a b => a.off + a.maxlen ≤ b.off) ∧ ∀ s ∈ slots, 0 < s.maxlen ∧ s.len = slotLen s fsize
+
+/-- a piece does not touch the mapped part of a window -/
+def Avoids (g : Seg) (s : Slot) : Prop := s.len = 0 ∨ g.off + g.len ≤ s.off ∨ s.off + s.len ≤ g.off
+
+theorem segs_zero (slots : List Slot) (k off : Nat) : segs slots k off 0 = [] := by
+  cases slots with
+  | nil => simp [segs, optSeg]
+  | cons a b => simp [segs]
+
+theorem segs_range : ∀ (slots : List Slot) (k off n : Nat) (g : Seg), g ∈ segs slots k off n →
+    off ≤ g.off ∧ g.off + g.len ≤ off + n
+  | [], k, off, n, g, hg => by
+    simp only [segs, optSeg] at hg
+    split at hg
+    · simp at hg; subst hg; simp
+    · simp at hg
+  | s :: rest, k, off, n, g, hg => by
+    unfold segs at hg
+    by_cases hn : n = 0
+    · simp [hn] at hg
+    simp only [hn, if_false] at hg
+    by_cases hb : s.len = 0 ∨ off + n ≤ s.off
+    · simp only [hb, if_true, List.mem_singleton] at hg; subst hg; simp
+    simp only [hb, if_false, List.mem_append] at hg
+    have h1 := preLen_le s off n
+    have h2 := midLen_le s (off + preLen s off n) (n - preLen s off n)
+    rcases hg with (hg | hg) | hg
+    · simp only [optSeg] at hg
+      split at hg
+      · simp at hg; subst hg; simp only []; omega
+      · simp at hg
+    · simp only [optSeg] at hg
+      split at hg
+      · simp at hg; subst hg; simp only []; omega
+      · simp at hg
+    · have := segs_range rest (k + 1) _ _ g hg
+      omega
+
+theorem slotLen_zero_of_ge (s t : Slot) (fsize : Nat) (hm : 0 < s.maxlen) (h0 : slotLen s fsize = 0) (hge : s.off ≤ t.off) :
+    slotLen t fsize = 0 := by
+  unfold slotLen at h0 ⊢
+  split at h0
+  · rename_i h; rw [if_pos (by omega)]
+  · omega
+
+theorem WInv_tail (s : Slot) (rest : List Slot) (fsize : Nat) (h : WInv (s :: rest) fsize) : WInv rest fsize :=
+  ⟨(List.pairwise_cons.mp h.1).2, fun t ht => h.2 t (List.mem_cons_of_mem _ ht)⟩
+
+/-- after a window has been dealt with, the rest of the request lies behind its mapped part -/
+theorem segs_progress (s : Slot) (off n : Nat) (hn : n ≠ 0) (hb : ¬ (s.len = 0 ∨ off + n ≤ s.off)) :
+    n - preLen s off n - midLen s (off + preLen s off n) (n - preLen s off n) = 0 ∨
+    s.off + s.len ≤ off + preLen s off n + midLen s (off + preLen s off n) (n - preLen s off n) := by
+  unfold preLen midLen
+  by_cases h1 : s.off > off
+  · simp only [h1, if_true]
+    by_cases h2 : n ≤ s.off - off
+    · left; rw [Nat.min_eq_left h2]; omega
+    · rw [Nat.min_eq_right (by omega)]
+      rw [if_pos ⟨by omega, by omega, by omega⟩]
+      by_cases h3 : n - (s.off - off) ≤ s.off + s.len - (off + (s.off - off))
+      · left; rw [Nat.min_eq_left h3]; omega
+      · right; rw [Nat.min_eq_right (by omega)]; omega
+  · simp only [h1, if_false, Nat.add_zero, Nat.sub_zero]
+    by_cases h2 : off < s.off + s.len
+    · rw [if_pos ⟨by omega, by omega, h2⟩]
+      by_cases h3 : n ≤ s.off + s.len - off
+      · left; rw [Nat.min_eq_left h3]; omega
+      · right; rw [Nat.min_eq_right (by omega)]; omega
+    · right; rw [if_neg (by omega)]; omega
+
+/-- **file pieces never touch a mapped window** (so what is read through the file was not shadowed by a mapping) -/
+theorem segs_file_avoids : ∀ (slots : List Slot) (fsize k off n : Nat), WInv slots fsize →
+    ∀ g ∈ segs slots k off n, g.slot = none → ∀ s ∈ slots, Avoids g s
+  | [], _, _, _, _, _, _, _, _, s, hs => by simp at hs
+  | s :: rest, fsize, k, off, n, hw, g, hg, hnone, t, ht => by
+    have hpw := List.pairwise_cons.mp hw.1
+    have hs := hw.2 s (List.mem_cons_self)
+    unfold segs at hg
+    by_cases hn : n = 0
+    · simp [hn] at hg
+    simp only [hn, if_false] at hg
+    by_cases hb : s.len = 0 ∨ off + n ≤ s.off
+    · simp only [hb, if_true, List.mem_singleton] at hg; subst hg
+      simp only [Avoids]
+      rcases hb with h0 | hle
+      · left
+        rcases List.mem_cons.mp ht with rfl | ht'
+        · exact h0
+        · rw [(hw.2 t (List.mem_cons_of_mem _ ht')).2]
+          exact slotLen_zero_of_ge s t fsize hs.1 (by rw [← hs.2]; exact h0) (by have := hpw.1 t ht'; omega)
+      · right; left
+        rcases List.mem_cons.mp ht with rfl | ht'
+        · exact hle
+        · have := hpw.1 t ht'; omega
+    simp only [hb, if_false, List.mem_append] at hg
+    have hl1 : off + preLen s off n ≤ s.off ∨ preLen s off n = 0 := by
+      unfold preLen; split
+      · left; omega
+      · right; rfl
+    rcases hg with (hg | hg) | hg
+    · simp only [optSeg] at hg
+      split at hg
+      · rename_i hpos
+        simp at hg; subst hg
+        simp only [Avoids]
+        right; left
+        rcases List.mem_cons.mp ht with rfl | ht'
+        · omega
+        · have := hpw.1 t ht'; omega
+      · simp at hg
+    · simp only [optSeg] at hg
+      split at hg
+      · simp at hg; subst hg; simp at hnone
+      · simp at hg
+    · rcases List.mem_cons.mp ht with rfl | ht'
+      · -- the window just dealt with: the rest of the request lies behind it
+        have hr := segs_range rest (k + 1) _ _ g hg
+        rcases segs_progress t off n hn hb with h0 | hbehind
+        · rw [h0, segs_zero] at hg; simp at hg
+        · simp only [Avoids]; right; right; omega
+      · exact segs_file_avoids rest fsize (k + 1) _ _ (WInv_tail s rest fsize hw) g hg hnone t ht'
+
+/-- the geometry of a window: everything except the private overlay -/
+def geom (s : Slot) : Nat × Nat × Nat := (s.off, s.maxlen, s.len)
+
+theorem slotLen_geom (a b : Slot) (fsize : Nat) (h : geom a = geom b) : slotLen a fsize = slotLen b fsize := by
+  simp only [geom, Prod.mk.injEq] at h
+  unfold slotLen; rw [h.1, h.2.1]
+
+theorem WInv_of_geom (a b : List Slot) (fsize : Nat) (h : a.map geom = b.map geom) (hb : WInv b fsize) : WInv a fsize := by
+  constructor
+  · have h1 : (b.map geom).Pairwise (fun x y => x.1 + x.2.1 ≤ y.1) := by
+      rw [List.pairwise_map]; exact hb.1
+    rw [← h, List.pairwise_map] at h1
+    exact h1
+  · intro s hs
+    have hm : geom s ∈ b.map geom := by rw [← h]; exact List.mem_map_of_mem hs
+    obtain ⟨t, ht, hg⟩ := List.mem_map.mp hm
+    have := hb.2 t ht
+    have hg' := hg
+    simp only [geom, Prod.mk.injEq] at hg
+    rw [← hg.2.1, ← hg.2.2, ← slotLen_geom t s fsize hg'] 
+    exact this
+
+theorem cowFold_geom' (ps : Nat) (file : Bytes) (p0 cnt : Nat) (s : Slot) :
+    geom ((List.range cnt).foldl (fun s k => cowPage ps file s (p0 + k)) s) = geom s := by
+  have := cowFold_geom ps file p0 cnt s
+  simp only [] at this
+  simp only [geom, this.1, this.2.1, this.2.2.2]
+
+theorem slotWrite_geom' (ps : Nat) (file : Bytes) (s : Slot) (r : Nat) (d : Bytes) :
+    geom (slotWrite ps file s r d).1 = geom s := by
+  cases d with
+  | nil => simp [slotWrite]
+  | cons x xs =>
+    by_cases hp : s.priv = true
+    · simp only [slotWrite, hp, if_true]
+      exact cowFold_geom' ps file _ _ s
+    · have hp' : s.priv = false := by simpa using hp
+      rw [slotWrite_shared _ _ _ _ _ hp']
+
+theorem map_set_geom (slots : List Slot) (k : Nat) (s s' : Slot) (hk : slots[k]? = some s) (hg : geom s' = geom s) :
+    (slots.set k s').map geom = slots.map geom := by
+  rw [List.map_set, hg]
+  apply set_eq_self
+  rw [List.getElem?_map, hk]; rfl
+
+theorem writeSeg_geom (ps : Nat) (file : Bytes) (slots : List Slot) (g : Seg) (d : Bytes) :
+    (writeSeg ps file slots g d).1.map geom = slots.map geom := by
+  unfold writeSeg
+  cases g.slot with
+  | none => rfl
+  | some k =>
+    simp only []
+    cases hk : slots[k]? with
+    | none => rfl
+    | some s => exact map_set_geom slots k s _ hk (slotWrite_geom' _ _ _ _ _)
+
+theorem writeSegs_geom (ps : Nat) : ∀ (gs : List Seg) (d : Bytes) (slots : List Slot) (file : Bytes),
+    (writeSegs ps gs d slots file).1.map geom = slots.map geom
+  | [], _, _, _ => rfl
+  | g :: gs, d, slots, file => by
+    unfold writeSegs
+    rw [writeSegs_geom ps gs _ _ _, writeSeg_geom]
+
+theorem remapAll_WInv (slots : List Slot) (fsize fsize' : Nat) (h : WInv slots fsize) : WInv (remapAll fsize' slots) fsize' := by
+  have hg : ∀ s, (remapSlot fsize' s).off = s.off ∧ (remapSlot fsize' s).maxlen = s.maxlen := by
+    intro s; unfold remapSlot; simp only []; split <;> exact ⟨rfl, rfl⟩
+  constructor
+  · unfold remapAll
+    rw [List.pairwise_map]
+    refine h.1.imp ?_
+    intro a b hab
+    rw [(hg a).1, (hg a).2, (hg b).1]; exact hab
+  · intro s hs
+    simp only [remapAll, List.mem_map] at hs
+    obtain ⟨s0, hs0, rfl⟩ := hs
+    exact ⟨by rw [(hg s0).2]; exact (h.2 s0 hs0).1, slotLen_remapSlot _ _⟩
+
+theorem rangesOverlap_false (s1 e1 s2 e2 : Nat) (h1 : s1 < e1) (h2 : s2 < e2) (h : rangesOverlap s1 e1 s2 e2 = false) :
+    e1 ≤ s2 ∨ e2 ≤ s1 := by
+  unfold rangesOverlap at h
+  simp only [Bool.or_eq_false_iff, Bool.and_eq_false_iff, decide_eq_false_iff_not] at h
+  omega
+
+theorem insertSlot_pairwise (ns : Slot) (hns : 0 < ns.maxlen) : ∀ (slots out : List Slot),
+    slots.Pairwise (fun a b => a.off + a.maxlen ≤ b.off) → (∀ s ∈ slots, 0 < s.maxlen) →
+    insertSlot ns slots = some out → out.Pairwise (fun a b => a.off + a.maxlen ≤ b.off)
+  | [], out, _, _, h => by
+    simp only [insertSlot, Option.some.injEq] at h; subst h; simp
+  | x :: rest, out, hp, hm, h => by
+    have hpw := List.pairwise_cons.mp hp
+    have hx := hm x (List.mem_cons_self)
+    unfold insertSlot at h
+    split at h
+    · cases h
+    · rename_i hov
+      have hdis := rangesOverlap_false x.off (x.off + x.maxlen) ns.off (ns.off + ns.maxlen) (by omega) (by omega) (by simpa using hov)
+      split at h
+      · rename_i hlt
+        simp only [Option.some.injEq] at h; subst h
+        refine List.pairwise_cons.mpr ⟨?_, hp⟩
+        intro t ht
+        rcases List.mem_cons.mp ht with rfl | ht'
+        · omega
+        · have := hpw.1 t ht'; omega
+      · rename_i hge
+        cases hr : insertSlot ns rest with
+        | none => simp [hr] at h
+        | some out' =>
+          simp only [hr, Option.map_some, Option.some.injEq] at h; subst h
+          refine List.pairwise_cons.mpr ⟨?_, insertSlot_pairwise ns hns rest out' hpw.2
+            (fun s hs => hm s (List.mem_cons_of_mem _ hs)) hr⟩
+          intro t ht
+          rcases insertSlot_mem ns rest out' hr t ht with rfl | ht'
+          · omega
+          · exact hpw.1 t ht'
+
+theorem removeFirst_pairwise (off : Nat) : ∀ (slots out : List Slot),
+    slots.Pairwise (fun a b => a.off + a.maxlen ≤ b.off) → removeFirst off slots = some out →
+    out.Pairwise (fun a b => a.off + a.maxlen ≤ b.off)
+  | [], out, _, h => by simp [removeFirst] at h
+  | x :: rest, out, hp, h => by
+    have hpw := List.pairwise_cons.mp hp
+    unfold removeFirst at h
+    split at h
+    · simp only [Option.some.injEq] at h; subst h; exact hpw.2
+    · cases hr : removeFirst off rest with
+      | none => simp [hr] at h
+      | some out' =>
+        simp only [hr, Option.map_some, Option.some.injEq] at h; subst h
+        exact List.pairwise_cons.mpr ⟨fun t ht => hpw.1 t (removeFirst_mem off rest out' hr t ht),
+          removeFirst_pairwise off rest out' hpw.2 hr⟩
+
+
+
+theorem addMmap_cases' (st : St) (off maxlen : Nat) (priv : Bool) :
+    (addMmap st off maxlen priv).2 = st ∨
+    ∃ ns out, 0 < ns.maxlen ∧ ns.len = slotLen ns st.fsize ∧ insertSlot ns st.slots = some out ∧
+      addMmap st off maxlen priv = (.ok, { st with slots := out }) := by
+  unfold addMmap
+  by_cases h1 : off % st.psize ≠ 0
+  · left; simp [h1]
+  · simp only [h1, if_false]
+    generalize (if offTMax - off < roundUp (min maxlen (offTMax - off)) st.psize
+      then roundDown (min maxlen (offTMax - off)) st.psize else roundUp (min maxlen (offTMax - off)) st.psize) = ml
+    by_cases h2 : ml = 0
+    · left; simp [h2]
+    · simp only [h2, if_false]
+      cases hins : insertSlot { off := off, maxlen := ml, len := slotLen { off := off, maxlen := ml, len := 0, priv := priv } st.fsize, priv := priv } st.slots with
+      | none => left; rfl
+      | some out => right; exact ⟨_, out, by show 0 < ml; omega, rfl, hins, rfl⟩
+
+theorem write_slots (st : St) (off : Int) (d : Bytes) :
+    ∃ st1, (st1 = st ∨ st1 = (ensureSize st (off.toNat + d.length)).2) ∧
+      (write st off d).2.2.fsize = st1.fsize ∧ (write st off d).2.2.slots.map geom = st1.slots.map geom := by
+  unfold write
+  split
+  · exact ⟨st, Or.inl rfl, rfl, rfl⟩
+  · simp only []
+    split
+    · exact ⟨st, Or.inl rfl, rfl, rfl⟩
+    · split
+      · refine ⟨(ensureSize st (off.toNat + d.length)).2, Or.inr rfl, ?_⟩
+        generalize ensureSize st (off.toNat + d.length) = r
+        obtain ⟨rc, st1⟩ := r
+        simp only []
+        split
+        · exact ⟨rfl, rfl⟩
+        · exact ⟨rfl, writeSegs_geom _ _ _ _ _⟩
+      · simp only []
+        exact ⟨st, Or.inl rfl, rfl, writeSegs_geom _ _ _ _ _⟩
+
+theorem truncate_WInv (st : St) (size : Nat) (h : WInv st.slots st.fsize) :
+    WInv (truncate st size).2.slots (truncate st size).2.fsize := by
+  rcases truncate_cases st size with ⟨e, _⟩ | ⟨e, _⟩ | ⟨e, _⟩ <;> rw [e]
+  · exact h
+  · exact h
+  · exact remapAll_WInv _ _ _ h
+
+theorem ensureSize_WInv (st : St) (sz : Nat) (h : WInv st.slots st.fsize) :
+    WInv (ensureSize st sz).2.slots (ensureSize st sz).2.fsize := by
+  rcases ensureSize_cases st sz with ⟨_, e⟩ | ⟨_, e | e | ⟨T, _, e, _, _⟩⟩ <;> rw [e]
+  · exact h
+  · exact h
+  · exact h
+  · exact truncate_WInv _ _ h
+
+theorem exec_WInv (st : St) (op : Op) (h : WInv st.slots st.fsize) : WInv (exec st op).1.slots (exec st op).1.fsize := by
+  cases op with
+  | write off d =>
+    simp only [exec]
+    obtain ⟨st1, hst1, hf, hg⟩ := write_slots st off d
+    rw [hf]
+    refine WInv_of_geom _ _ _ hg ?_
+    rcases hst1 with rfl | rfl
+    · exact h
+    · exact ensureSize_WInv _ _ h
+  | read off n => exact h
+  | copy off siz noff =>
+    simp only [exec]
+    unfold copy
+    split
+    · rename_i s rest hsl
+      split
+      · refine WInv_of_geom _ (s :: rest) _ ?_ (by rw [← hsl]; exact h)
+        simp only [List.map_cons, slotWrite_geom']
+      · exact h
+    · exact h
+  | mmapWrite so rel d =>
+    simp only [exec]
+    unfold mmapWrite
+    cases hk : st.slots.findIdx? (fun s => s.off == so) with
+    | none => exact h
+    | some k =>
+      simp only []
+      cases hsk : st.slots[k]? with
+      | none => exact h
+      | some s =>
+        simp only []
+        split
+        · exact h
+        · split
+          · exact WInv_of_geom _ _ _ (map_set_geom _ _ _ _ hsk (slotWrite_geom' _ _ _ _ _)) h
+          · exact h
+  | truncate size => exact truncate_WInv _ _ h
+  | ensure size => exact ensureSize_WInv _ _ h
+  | addMmap off maxlen priv =>
+    simp only [exec]
+    rcases addMmap_cases' st off maxlen priv with e | ⟨ns, out, hm, hlen, hins, e⟩
+    · rw [e]; exact h
+    · rw [e]
+      refine ⟨insertSlot_pairwise ns hm _ _ h.1 (fun s hs => (h.2 s hs).1) hins, ?_⟩
+      intro s hs
+      rcases insertSlot_mem _ _ _ hins s hs with rfl | hs'
+      · exact ⟨hm, hlen⟩
+      · exact h.2 s hs'
+  | removeMmap off =>
+    simp only [exec, removeMmap]
+    split
+    · exact h
+    · rename_i out hout
+      exact ⟨removeFirst_pairwise _ _ _ h.1 hout, fun s hs => h.2 s (removeFirst_mem _ _ _ hout s hs)⟩
+  | remapAll => exact remapAll_WInv _ _ _ h
+
+theorem run_WInv : ∀ (ops : List Op) (st : St), WInv st.slots st.fsize → WInv (run st ops).1.slots (run st ops).1.fsize
+  | [], _, h => h
+  | op :: ops, st, h => by
+    simp only [run]
+    exact run_WInv ops _ (exec_WInv st op h)
+
 end IwModel.Exf
